@@ -465,10 +465,14 @@ def _run_prog(case, out):
 
     # ---- Independence: every stream alone - and after many other streams were created in between (the sequence
     #      of a stream depends on its seed only, not on which streams the process created before it)
-    for i in range(300):
-        MersenneTwister(10 ** 6 + i)
-    if any(hash(a) == hash(b) and a != b for a in seeds for b in seeds):
+    from vlib.runner import digest
+    eqh = any(hash(a) == hash(b) and a != b for a in seeds for b in seeds)
+    if eqh:
         out.label("seeds-with-equal-hash")
+    if eqh or digest(case)[3] % 4 == 0:
+        out.label("unrelated-streams-in-between")
+        for i in range(300):
+            MersenneTwister(10 ** 6 + i)
     solo = [None] * n
     for s in range(n):
         so, _ = _exec(flat, seeds, only=s)
@@ -856,5 +860,5 @@ TECHNIQUE = "Hypothesis op-list programs + metamorphic oracle (twin / reset / re
 
 
 RULE = RULE + " " + 'Later additions: in a third of the histories every third operation is carried out by another thread (started and joined, no concurrency).'
-RULE = RULE + (" Round 20: 300 unrelated streams are created between the interleaved run and the run of every stream "
+RULE = RULE + (" Round 20: in a quarter of the cases (and whenever two seeds have equal hash()) 300 unrelated streams are created between the interleaved run and the run of every stream "
                "alone; one case in six pairs two distinct seeds with equal hash().")
